@@ -15,17 +15,20 @@ from tools import vlib
 from tools.vlib import Outcome, sx
 
 MANIFEST = {
-    "level_text": "Coq theorems (Properties/C04.v, no axioms) about a Gallina transcription of is_tauri_parameter_type, channel extraction (incl. the repaired ipc::Channel and Request<'_>), Option detection, compute_parameter_name over serde-rename-rule's apply_to_field behind the call-site guard of apply_naming_convention, and the five template shapes that decide the second argument of invoke, for every parameter list, every name over [a-z0-9_], all eight configured cases and both modes: generation never panics; outside three narrow recorded classes the (key, omittable) pairs reaching invoke are a permutation of Tauri's (one per non-injected parameter incl. channels, named by heck's lowerCamelCase / snake_case rule or the configured serde rule, omittable iff Option), Zod mode validates exactly the value keys and re-attaches exactly the channel keys, both modes deliver the same entries (unconditionally), and the guarded camelCase equals Tauri's word rule. Tied to /repo on every run: both generators run on generated commands, the written files are read back by the extracted observation and compared with the model and the spec.",
+    "level_text": "Coq theorems (Properties/C04.v, no axioms) about a Gallina transcription of is_tauri_parameter_type, channel extraction (incl. the repaired ipc::Channel and Request<'_>), Option detection, compute_parameter_name over serde-rename-rule's apply_to_field behind the call-site guard of apply_naming_convention, and the five template shapes that decide the second argument of invoke, for every project (files of commands and helper functions with arbitrary name overlap), every parameter list, every name over [a-z0-9_], all eight configured cases and both modes: generation never panics; every command gets exactly its own keys (C04_project_keys); outside three narrow recorded classes the (key, omittable) pairs reaching invoke are a permutation of Tauri's (one per non-injected parameter incl. channels, named by heck's lowerCamelCase / snake_case rule or the configured serde rule, omittable iff Option), Zod mode validates exactly the value keys and re-attaches exactly the channel keys, both modes deliver the same entries (unconditionally), and the guarded camelCase equals Tauri's word rule. Tied to /repo on every run: both generators run on generated commands, the written files are read back by the extracted observation and compared with the model and the spec.",
     "design_ref": "DESIGN.md section 5 C04, section 11 camel_agrees",
     "level_note": "The model represents the generated module by what the key set depends on (schema keys, Params declaration, call-site shape), not by its text; the reading of the real files (Spec/C04Obs.v, token level, tolerant of non-identifier keys) is trusted, not proved against a TypeScript grammar. Commands carrying #[serde(..)] attributes on the function or its parameters (a mechanism of the tool, rejected by rustc/Tauri) are outside the model. Three known classes are premises of C04_keys/C04_optional (bare Window, rename_all in the command attribute, underscore-only names under camelCase); C04-2 (ipc::Channel), C04-3 (Request<'_> / ipc::Request<'_>) and C04-5 (panic on underscore-only names) are repaired and their witnesses are regression cases. A Request that is neither fully qualified nor written with its lifetime is outside the domain (indistinguishable from a user type).",
     "technique": "Rocq/Coq proof over hand-written model + correspondence check (extracted OCaml vs Rust harness and real CLI)"
 }
 
-RULE = ("one command per case: 0-6 parameters mixing value types, every listed spelling of the injected types and of channels, "
+RULE = ("single-command cases: 0-6 parameters mixing value types, every listed spelling of the injected types and of channels, "
         "names over [a-z0-9_] with leading/double/trailing underscores and digits (some written as raw identifiers r#name, incl. keywords), optional rename_all in the command attribute, "
         "default_parameter_case absent or one of the eight conventions, both modes; plus exhaustive streams (every name over {a,1,_} "
         "up to length 4 x 8 cases; every spelling alone and next to a value parameter in both orders). A case is non-trivial when it "
-        "has at least one parameter; distinct = distinct (command, configuration) pairs")
+        "has at least one parameter; distinct = distinct (project, configuration) pairs. Project cases: 1-3 files with 2-7 functions (commands and helpers) "
+        "whose names are prefixes / suffixes / infixes of one another or repeat across files, channels on some of them, every order; every "
+        "command of the project is judged. Types of values and of channel messages range over the README table and over types the resolver "
+        "cannot render (slices, arrays, fn pointers, impl/dyn Trait, unit, raw pointers, nested channels)")
 TRUSTED = ["Spec/C04Obs.v: token-level reading of types.ts/commands.ts (Params declaration, z.object keys, the invoke argument) - a model of TypeScript, not proved",
            "Spec/C04TauriCase.v: Tauri's argument naming and the list of injected types, transcribed from the property text and tauri-macros; lowerCamelCase and snake_case cross-checked against heck 0.5 on every generated name",
            "python printer of the Rust source; its type abstraction is cross-checked against syn on every case"]
@@ -50,11 +53,19 @@ VALUE_TYPES = [
     ("Item", P(["Item"])), ("HashMap<String, i32>", P(["HashMap"], ["T", "T"])), ("(i32, String)", ["other"]),
     ("&str", ["other"]), ("State", P(["State"])), ("Channel", P(["Channel"])), ("Manager", P(["Manager"])),
     ("std::string::String", P(["std", "string", "String"])),
+    ("std::collections::HashMap<String, bool>", P(["std", "collections", "HashMap"], ["T", "T"])),
+    # the rest of the README table, and types the resolver cannot render: the key does not depend on the type
+    ("HashSet<String>", P(["HashSet"], ["T"])), ("BTreeMap<String, Vec<i32>>", P(["BTreeMap"], ["T", "T"])),
+    ("Result<i32, String>", P(["Result"], ["T", "T"])), ("(i32, (String, bool))", ["other"]), ("()", ["other"]),
+    ("&[u8]", ["other"]), ("[u8; 4]", ["other"]), ("fn()", ["other"]), ("fn(i32) -> String", ["other"]), ("impl Fn()", ["other"]),
+    ("Box<dyn Fn()>", P(["Box"], ["T"])), ("&dyn Send", ["other"]), ("Vec<&[u8]>", P(["Vec"], ["T"])), ("*const u8", ["other"]),
 ]
 OPTION_TYPES = [
     ("Option<String>", P(["Option"], ["T"])), ("Option<i32>", P(["Option"], ["T"])), ("Option<Item>", P(["Option"], ["T"])),
     ("Option<Vec<String>>", P(["Option"], ["T"])), ("Option<bool>", P(["Option"], ["T"])),
     ("std::option::Option<String>", P(["std", "option", "Option"], ["T"])),
+    ("Option<HashMap<String, i32>>", P(["Option"], ["T"])), ("Option<&[u8]>", P(["Option"], ["T"])), ("Option<()>", P(["Option"], ["T"])),
+    ("Option<(i32, String)>", P(["Option"], ["T"])),
 ]
 INJECTED_TYPES = [
     ("AppHandle", P(["AppHandle"])), ("tauri::AppHandle", P(["tauri", "AppHandle"])), ("AppHandle<R>", P(["AppHandle"], ["T"])),
@@ -73,6 +84,15 @@ CHANNEL_TYPES = [
     ("tauri::ipc::Channel<String>", P(["tauri", "ipc", "Channel"], ["T"])), ("tauri::ipc::Channel<Item>", P(["tauri", "ipc", "Channel"], ["T"])),
     ("Channel<Vec<u8>>", P(["Channel"], ["T"])),
     ("ipc::Channel<String>", P(["ipc", "Channel"], ["T"])), ("ipc::Channel<Item>", P(["ipc", "Channel"], ["T"])),
+    # message types over the README table and beyond what the resolver renders
+    ("Channel<Option<String>>", P(["Channel"], ["T"])), ("Channel<Vec<Item>>", P(["Channel"], ["T"])),
+    ("Channel<HashMap<String, i32>>", P(["Channel"], ["T"])), ("Channel<(i32, String)>", P(["Channel"], ["T"])),
+    ("Channel<Result<i32, String>>", P(["Channel"], ["T"])), ("Channel<HashSet<String>>", P(["Channel"], ["T"])),
+    ("Channel<()>", P(["Channel"], ["T"])), ("Channel<&[u8]>", P(["Channel"], ["T"])), ("Channel<[u8; 4]>", P(["Channel"], ["T"])),
+    ("Channel<fn()>", P(["Channel"], ["T"])), ("Channel<Box<dyn Fn()>>", P(["Channel"], ["T"])), ("Channel<&str>", P(["Channel"], ["T"])),
+    ("Channel<Channel<i32>>", P(["Channel"], ["T"])), ("tauri::ipc::Channel<&[u8]>", P(["tauri", "ipc", "Channel"], ["T"])),
+    ("ipc::Channel<fn()>", P(["ipc", "Channel"], ["T"])), ("Channel<impl Fn()>", P(["Channel"], ["T"])),
+    ("Channel<&dyn Send>", P(["Channel"], ["T"])), ("Channel<*const u8>", P(["Channel"], ["T"])),
 ]
 KF_TYPES = {
     0: [("Window", P(["Window"]))],
@@ -161,6 +181,83 @@ def random_case(rng, kf_class=None):
     return c
 
 
+def random_fn(rng, name, command):
+    """parameter list of one function, drawn like random_case (no class member on purpose)"""
+    c = random_case(rng)
+    return {"name": name, "command": command, "macro": c["macro"] if command else None, "attr": c["attr"], "params": c["params"]}
+
+
+def overlapping_names(rng, k):
+    """k distinct function names with suffix / prefix / infix relations between them"""
+    base = rng.choice(["download", "sync", "load_user", "export", "job", "send_msg", "scan"])
+    pool = [base, "start_" + base, base + "_all", "re" + base, base + "s", "pre_" + base + "_x", base + "_" + base,
+            "do_" + base + "_now", "x" + base, base + "2", base + "_v2"]
+    rng.shuffle(pool)
+    return pool[:k]
+
+
+def project_case(rng):
+    nfiles = rng.choice([1, 1, 2, 2, 3])
+    names = overlapping_names(rng, rng.randint(2, 7))
+    files = [{"path": ["a_cmds.rs", "lib.rs", "sub/z_more.rs"][i], "fns": []} for i in range(nfiles)]
+    cmd_names = set()
+    for n in names:
+        fl = rng.choice(files)
+        command = rng.random() < 0.65
+        fl["fns"].append(random_fn(rng, n, command))
+        if command:
+            cmd_names.add(n)
+        # the same name once more in another file, as a helper (a second command of that name is C02/C03 business)
+        if nfiles > 1 and rng.random() < 0.3:
+            other = rng.choice([f for f in files if f is not fl])
+            if all(g["name"] != n for g in other["fns"]):
+                other["fns"].append(random_fn(rng, n, False if command else rng.random() < 0.5 and n not in cmd_names))
+                if other["fns"][-1]["command"]:
+                    cmd_names.add(n)
+    for fl in files:
+        rng.shuffle(fl["fns"])
+    files = [f for f in files if f["fns"]]
+    default_case = rng.choice([None, None, "camelCase", "snake_case", "kebab-case", "PascalCase"])
+    # the macro attribute is judged against the project's configuration: keep only agreeing ones here
+    for fl in files:
+        for f in fl["fns"]:
+            if f["macro"] == "camelCase" and default_case not in (None, "camelCase"):
+                f["macro"] = None
+            if f["macro"] == "snake_case" and default_case != "snake_case":
+                f["macro"] = None
+    return {"default_case": default_case, "files": files}
+
+
+def overlap_matrix():
+    """Deterministic: two functions a, b whose names are related (b suffix / prefix / infix of a, or equal in another
+    file), channels on a / b / both / none, both orders, b or a being a helper or a command."""
+    S, O, C, C2 = VALUE_TYPES[0], OPTION_TYPES[0], CHANNEL_TYPES[0], CHANNEL_TYPES[3]
+    rel = {"suffix": ("start_download", "download"), "prefix": ("download_all", "download"),
+           "infix": ("pre_download_x", "download"), "glued-suffix": ("redownload", "download"),
+           "same-other-file": ("download", "download")}
+    cases = []
+    for rname, (a, b) in rel.items():
+        for cha, chb in ((1, 0), (0, 1), (1, 1), (0, 0)):
+            for order in (0, 1):
+                for kinds in ((True, True), (True, False), (False, True)):
+                    if rname == "same-other-file" and kinds == (True, True):
+                        continue
+                    fa = {"name": a, "command": kinds[0], "macro": None, "attr": "tauri::command",
+                          "params": [{"name": n, "ty": t[0], "abs": t[1]} for n, t in
+                                     ([("url", S)] + ([("on_progress", C)] if cha else []) + [("retry_count", O)])]}
+                    fb = {"name": b, "command": kinds[1], "macro": None, "attr": "command",
+                          "params": [{"name": n, "ty": t[0], "abs": t[1]} for n, t in
+                                     ([("file_id", VALUE_TYPES[1])] + ([("on_chunk", C2)] if chb else []) + [("dest_path", S)])]}
+                    if rname == "same-other-file":
+                        files = [{"path": "a.rs", "fns": [fa]}, {"path": "b.rs", "fns": [fb]}]
+                        if order:
+                            files[0]["path"], files[1]["path"] = "b.rs", "a.rs"
+                    else:
+                        files = [{"path": "lib.rs", "fns": [fa, fb] if order == 0 else [fb, fa]}]
+                    cases.append({"default_case": None, "files": files})
+    return cases
+
+
 def small_names():
     out = []
     for n in range(1, 5):
@@ -224,18 +321,49 @@ def odd_cases(rng, n):
     return cases
 
 
-def render_source(case):
-    uses_r = any("<R>" in p["ty"] for p in case["params"])
-    uses_a = any("'a" in p["ty"] for p in case["params"])
+def to_project(case):
+    """A single-command case {name, macro, attr, default_case, params} is the project with one file and one function."""
+    if "files" in case:
+        return case
+    return {"default_case": case["default_case"],
+            "files": [{"path": "lib.rs", "fns": [{"name": case["name"], "command": True, "macro": case["macro"],
+                                                    "attr": case.get("attr") or "tauri::command", "params": case["params"]}]}]}
+
+
+def all_fns(proj):
+    return [f for fl in sorted(proj["files"], key=lambda x: x["path"]) for f in fl["fns"]]
+
+
+def render_fn(f):
+    uses_r = any("<R>" in p["ty"] for p in f["params"])
+    uses_a = any("'a" in p["ty"] for p in f["params"])
     gens = ", ".join((["'a"] if uses_a else []) + (["R: tauri::Runtime"] if uses_r else []))
-    attr = case.get("attr") or "tauri::command"
-    if case["macro"]:
-        attr += '(rename_all = "%s")' % case["macro"]
+    head = ""
+    if f["command"]:
+        attr = f.get("attr") or "tauri::command"
+        if f.get("macro"):
+            attr += '(rename_all = "%s")' % f["macro"]
+        head = "#[%s]\n" % attr
     # a raw identifier r#name is the parameter called name (repair C01-raw-ident-strip; tauri-macros unraws as well)
-    ps = ", ".join("%s%s: %s" % ("r#" if p.get("raw") else "", p["name"], p["ty"]) for p in case["params"])
-    return ("use serde::{Deserialize, Serialize};\nuse std::collections::HashMap;\n\n"
-            "#[derive(Debug, Serialize, Deserialize)]\npub struct Item {\n    pub id: i32,\n    pub label: String,\n}\n\n"
-            "#[%s]\npub async fn %s%s(%s) {\n}\n" % (attr, case["name"], ("<" + gens + ">") if gens else "", ps))
+    ps = ", ".join("%s%s: %s" % ("r#" if p.get("raw") else "", p["name"], p["ty"]) for p in f["params"])
+    return "%spub async fn %s%s(%s) {\n}\n" % (head, f["name"], ("<" + gens + ">") if gens else "", ps)
+
+
+MODELS_RS = ("use serde::{Deserialize, Serialize};\n\n#[derive(Debug, Serialize, Deserialize)]\npub struct Item {\n"
+             "    pub id: i32,\n    pub label: String,\n}\n")
+
+
+def render_files(case):
+    """[[relative path, text], ...]; the struct the value types mention lives in a file of its own."""
+    proj = to_project(case)
+    out = [["zz_models.rs", MODELS_RS]]
+    for fl in proj["files"]:
+        out.append([fl["path"], "use std::collections::HashMap;\n\n" + "\n".join(render_fn(f) for f in fl["fns"])])
+    return out
+
+
+def render_source(case):
+    return "\n".join("// ---- src/%s\n%s" % (p, t) for p, t in render_files(case))
 
 
 def case_sexp(case, impl):
@@ -250,9 +378,12 @@ def case_sexp(case, impl):
         if o.get("types") is None or o.get("commands") is None:
             return ["nofiles"]
         return ["files", o["types"], o["commands"]]
-    dc = case["default_case"] if case["default_case"] is not None else "camelCase"   # config.rs default, see cfg_default_probe
-    return sx([dc, case["name"], [case["macro"]] if case["macro"] else None,
-               [[p["name"], ty(p["abs"])] for p in case["params"]], side(impl["plain"]), side(impl["zod"])])
+    proj = to_project(case)
+    dc = proj["default_case"] if proj["default_case"] is not None else "camelCase"   # config.rs default
+    files = [[[f["name"], bool(f["command"]), [f["macro"]] if f.get("macro") else None,
+               [[p["name"], ty(p["abs"])] for p in f["params"]]] for f in fl["fns"]]
+             for fl in sorted(proj["files"], key=lambda x: x["path"])]
+    return sx([dc, files, side(impl["plain"]), side(impl["zod"])])
 
 
 def norm_abs(a):
@@ -275,8 +406,8 @@ def keyres(r):
 def impl_harness(cases):
     scratch = os.path.join(vlib.RUST_OUT, "sandbox", "c04")
     os.makedirs(scratch, exist_ok=True)
-    payload = [{"id": c["id"], "scratch": scratch, "source": render_source(c), "default_case": c["default_case"],
-                "params": [{"name": p["name"], "ty": p["ty"]} for p in c["params"]]} for c in cases]
+    payload = [{"id": c["id"], "scratch": scratch, "files": render_files(c), "default_case": to_project(c)["default_case"],
+                "params": [{"name": p["name"], "ty": p["ty"]} for f in all_fns(to_project(c)) for p in f["params"]]} for c in cases]
     return vlib.run_harness("c04-gen", payload, per_case_timeout=60)
 
 
@@ -284,12 +415,14 @@ def impl_cli(cases):
     """Same observation through the real binary: cargo-tauri-typegen tauri-typegen generate -c cfg.json --force."""
     def one(c):
         res = {"id": c["id"], "heck": None, "abs": None}
+        dc = to_project(c)["default_case"]
         with vlib.Sandbox("c04") as sb:
-            sb.write("proj/src/lib.rs", render_source(c))
+            for path, text in render_files(c):
+                sb.write("proj/src/" + path, text)
             for mode, key in (("none", "plain"), ("zod", "zod")):
                 cfg = {"project_path": sb.path("proj/src"), "output_path": sb.path("out-" + mode), "validation_library": mode}
-                if c["default_case"] is not None:
-                    cfg["default_parameter_case"] = c["default_case"]
+                if dc is not None:
+                    cfg["default_parameter_case"] = dc
                 sb.write("cfg-%s.json" % mode, json.dumps(cfg))
                 rc, out = sb.cli(["generate", "-c", sb.path("cfg-%s.json" % mode), "--force"])
                 if rc == 101 or "panicked at" in out:
@@ -314,27 +447,29 @@ def evaluate(cases, via="harness", in_domain=True):
         if o.get("skipped") or "crash" in o or ("panic" in o and "plain" not in o):
             continue
         if o.get("abs") is not None:
-            for p, a in zip(c["params"], o["abs"]):
+            ps = [p for f in all_fns(to_project(c)) for p in f["params"]]
+            for p, a in zip(ps, o["abs"]):
                 if norm_abs(a) != p["abs"]:
                     raise vlib.BuildError("generator abstraction of %r is %r but syn sees %r" % (p["ty"], p["abs"], a))
         sexps.append(case_sexp(c, o))
         idx.append(c["id"])
-    res = dict(zip(idx, vlib.run_runner("c04-case", sexps)))
-    # spec's camelCase against heck on every name
-    names = sorted({p["name"] for c in cases for p in c["params"]})
+    res = dict(zip(idx, vlib.run_runner("c04-project", sexps)))
+    # spec's camelCase / snake_case against heck on every name
     heck = {}
     for c, o in zip(cases, obs):
         if o.get("heck"):
-            for p, h in zip(c["params"], o["heck"]):
+            ps = [p for f in all_fns(to_project(c)) for p in f["params"]]
+            for p, h in zip(ps, o["heck"]):
                 heck[p["name"]] = h
     if heck and in_domain:
         ns = sorted(heck)
         for n, r in zip(ns, vlib.run_runner("c04-camel", [sx(n) for n in ns])):
             if list(r) != list(heck[n]):
                 raise vlib.BuildError("Spec (tauri_camel, tauri_snake)(%r) = %r but heck gives %r" % (n, r, heck[n]))
+    names6 = ["keys_plain", "optional_plain", "keys_zod", "optional_zod", "zod_validated_split", "modes_agree"]
     outs = []
     for c, o in zip(cases, obs):
-        case = {k: c[k] for k in ("name", "macro", "attr", "default_case", "params")}
+        case = {k: c[k] for k in c if k != "id"}
         case["via"] = via
         if o.get("skipped"):
             continue
@@ -344,31 +479,43 @@ def evaluate(cases, via="harness", in_domain=True):
         r = res[c["id"]]
         if r and r[0] == "runner-error":
             raise vlib.BuildError("runner: %s" % r)
-        dom, classes, mp, mz, op, oz, oracle, spec = r
-        if in_domain and dom != "true":
-            raise vlib.BuildError("generated case outside the domain of the theorems: %s" % json.dumps(case))
-        classes = [x == "true" for x in classes]
-        kf = None
-        for k in KF_PRIORITY:
-            if classes[k]:
-                kf = KF_IDS[k]
-                break
-        mp, mz, op, oz = keyres(mp), keyres(mz), keyres(op), keyres(oz)
-        corr = (mp == op) and (mz == oz)
-        names6 = ["keys_plain", "optional_plain", "keys_zod", "optional_zod", "zod_validated_split", "modes_agree"]
-        verdict = dict(zip(names6, [x == "true" for x in oracle])) if oracle else {}
-        if in_domain:
-            ok = bool(oracle) and all(verdict.values())
-        else:
-            ok = True             # the property does not speak about these inputs; only the model's faithfulness is checked
-        det = {"impl": {"plain": op, "zod": oz}, "model": {"plain": mp, "zod": mz}, "spec_keys": spec, "oracle": verdict,
-               "classes": [KF_IDS[i] for i, x in enumerate(classes) if x], "source": render_source(c)}
+        ncmds = sum(1 for f in all_fns(to_project(c)) if f["command"])
+        if len(r) != ncmds:
+            raise vlib.BuildError("runner answered %d commands for %d" % (len(r), ncmds))
+        corr = ok = True
+        failing_kf = []
+        percmd = {}
+        for name, dom, classes, mp, mz, op, oz, oracle, spec in r:
+            if in_domain and dom != "true":
+                raise vlib.BuildError("generated case outside the domain of the theorems: %s" % json.dumps(case))
+            classes = [x == "true" for x in classes]
+            kf = None
+            for k in KF_PRIORITY:
+                if classes[k]:
+                    kf = KF_IDS[k]
+                    break
+            mp, mz, op, oz = keyres(mp), keyres(mz), keyres(op), keyres(oz)
+            c_corr = (mp == op) and (mz == oz)
+            verdict = dict(zip(names6, [x == "true" for x in oracle])) if oracle else {}
+            c_ok = (bool(oracle) and all(verdict.values())) if in_domain else True
+            corr &= c_corr
+            ok &= c_ok
+            if not c_ok:
+                failing_kf.append(kf)
+            percmd[name] = {"impl": {"plain": op, "zod": oz}, "model": {"plain": mp, "zod": mz}, "spec_keys": spec,
+                            "oracle": verdict, "classes": [KF_IDS[i] for i, x in enumerate(classes) if x],
+                            "corr": c_corr, "ok": c_ok}
+        # a recorded class explains the case only if every failing command lies in one
+        kf = failing_kf[0] if failing_kf and all(failing_kf) else None
+        bad = {n: d for n, d in percmd.items() if not (d["corr"] and d["ok"])}
+        det = {"commands": bad if bad else dict(list(percmd.items())[:2]), "source": render_source(c)}
         for m in ("plain", "zod"):
             if "error" in o.get(m, {}):
                 det["impl_error_" + m] = o[m]["error"]
             if "panic" in o.get(m, {}):
                 det["impl_panic_" + m] = str(o[m]["panic"])[:300]
-        outs.append(Outcome(case, corr, ok, kf if in_domain else None, detail=det, nontrivial=bool(c["params"])))
+        outs.append(Outcome(case, corr, ok, kf if in_domain else None, detail=det,
+                            nontrivial=any(f["params"] for f in all_fns(to_project(c)))))
     return outs
 
 
@@ -385,15 +532,24 @@ def cfg_default_probe():
 
 def distribution(rep, name, cases):
     d = rep.extra.setdefault("distribution", {})
-    st = {"cases": len(cases), "params": {}, "default_case": {}, "macro": {}, "kinds": {}}
+    st = {"cases": len(cases), "files": {}, "functions": {}, "commands": {}, "params": {}, "default_case": {}, "macro": {}, "kinds": {}}
+
+    def inc(m, k):
+        m[k] = m.get(k, 0) + 1
     for c in cases:
-        st["params"][len(c["params"])] = st["params"].get(len(c["params"]), 0) + 1
-        st["default_case"][str(c["default_case"])] = st["default_case"].get(str(c["default_case"]), 0) + 1
-        st["macro"][str(c["macro"])] = st["macro"].get(str(c["macro"]), 0) + 1
-        for p in c["params"]:
-            k = ("option" if any(p["ty"] == t[0] for t in OPTION_TYPES) else "injected" if any(p["ty"] == t[0] for t in INJECTED_TYPES)
-                 else "channel" if any(p["ty"] == t[0] for t in CHANNEL_TYPES) else "value" if any(p["ty"] == t[0] for t in VALUE_TYPES) else "other")
-            st["kinds"][k] = st["kinds"].get(k, 0) + 1
+        pr = to_project(c)
+        fns = all_fns(pr)
+        inc(st["files"], len(pr["files"]))
+        inc(st["functions"], len(fns))
+        inc(st["commands"], sum(1 for f in fns if f["command"]))
+        inc(st["default_case"], str(pr["default_case"]))
+        for f in fns:
+            inc(st["params"], len(f["params"]))
+            inc(st["macro"], str(f.get("macro")))
+            for p in f["params"]:
+                k = ("option" if any(p["ty"] == t[0] for t in OPTION_TYPES) else "injected" if any(p["ty"] == t[0] for t in INJECTED_TYPES)
+                     else "channel" if any(p["ty"] == t[0] for t in CHANNEL_TYPES) else "value" if any(p["ty"] == t[0] for t in VALUE_TYPES) else "other")
+                inc(st["kinds"], k)
     d[name] = st
 
 
@@ -423,6 +579,15 @@ def run(rep):
     ex2 = exhaustive_spellings()
     distribution(rep, "exhaustive-spellings", ex2)
     rep.add("exhaustive-spellings", evaluate(ex2))
+    # several functions per file and per project, names overlapping
+    om = overlap_matrix()
+    distribution(rep, "overlap-matrix", om)
+    rep.add("overlap-matrix", evaluate(om))
+    pj = [project_case(rng) for _ in range(6000 if thorough else 500)]
+    distribution(rep, "random-projects", pj)
+    rep.add("random-projects", evaluate(pj))
+    pjc = [project_case(rng) for _ in range(600 if thorough else 40)]
+    rep.add("random-projects-cli", evaluate(pjc, via="cli"))
     # random, outside every class (where the theorems speak) and inside each class
     n = 40000 if thorough else 1500
     main = [random_case(rng) for _ in range(n)]
